@@ -206,7 +206,17 @@ func cmdCheck(args []string) int {
 	for _, f := range jobs {
 		tx, err := s.verifyFnInstance(f.key, f.inst)
 		if err != nil {
-			broken = append(broken, err.Error())
+			if strings.Contains(err.Error(), "contract target missing") || tx == nil {
+				broken = append(broken, err.Error())
+				continue
+			}
+			// the contract can no longer be interpreted over the function's current body (renamed/retyped variables,
+			// changed loop structure): the proof does not cover this code any more - reported as a failed obligation
+			o := &Obligation{Name: f.key + "#contract:applies", Fn: f.key, Kind: "contract", Label: "applies", Src: "the contract of " + f.key + " can be interpreted over its current body", Status: "failed-structural", Output: err.Error(), Solver: "zv", Block: -1, Bounded: f.inst}
+			if f.inst != "" {
+				o.Name += "[" + f.inst + "]"
+			}
+			obls = append(obls, o)
 			continue
 		}
 		for _, u := range tx.unsupported {
